@@ -12,7 +12,8 @@ import SpVerif.Proofs.CrcBurstBytes
 `c04_<kind>_sweep`   {raw, patterns, crc_every, …}            → whole fault enumeration of one packet in one line
 
 kinds: `tc`, `tm` (ts_len), `s17` (ts_len), `s1` (ts_len, step_bytes, err_bytes). Every kind is an entry
-of `kinds`; a further kind only needs a decoder `Bytes → Py Unit`, the excluded bit range and the
+of `kinds`; `frame` (ex_lo, ex_hi: generic CRC frame, residue zero over the whole string).
+a further kind only needs a decoder `Bytes → Py Unit`, the excluded bit range and the
 bit range in which another documented error than the checksum error may come first.
 -/
 namespace SpVerif.Ops.Crc
@@ -34,7 +35,7 @@ def getBitsList (j : Json) (k : String) : R (List (List Bool)) := do
 /-- one packet kind of the fault enumeration -/
 structure Kind where
   /-- the decoder, result dropped -/
-  dec : Json → R (Bytes → Py Unit)
+  dec : Bytes → Py Unit
   /-- bits `[exLo, exHi)` are the length-determining octets: windows meeting them are not enumerated -/
   exLo : Nat
   exHi : Nat
@@ -46,12 +47,19 @@ def meets (k len lo hi : Nat) : Bool := decide (k < hi ∧ lo < k + len)
 
 def unit {α} (x : Py α) : Py Unit := x.map fun _ => ()
 
-def kTc : Kind := ⟨fun _ => pure fun d => unit (PusTc.Tc.unpack d), 32, 48, 48, 52⟩
-def kTm : Kind := ⟨fun j => do let n ← getNat j "ts_len"; pure fun d => unit (PusTm.Tm.unpack d n), 32, 48, 48, 52⟩
-def kS17 : Kind := ⟨fun j => do let n ← getNat j "ts_len"; pure fun d => unit (PusTm.srv17Unpack d n), 32, 48, 48, 52⟩
-def kS1 : Kind := ⟨fun j => do
-    let n ← getNat j "ts_len"; let sb ← getNat j "step_bytes"; let eb ← getNat j "err_bytes"
-    pure fun d => unit (Srv1.S1Tm.unpack d n sb eb), 32, 48, 48, 52⟩
+/-- PUS kinds: octets 4–5 excluded; a window meeting the PUS-version nibble (bits 48…51) may be refused
+    with ValueError before the CRC is looked at -/
+def kTc (_ : Json) : R Kind := pure ⟨fun d => unit (PusTc.Tc.unpack d), 32, 48, 48, 52⟩
+def kTm (j : Json) : R Kind := do
+  let n ← getNat j "ts_len"; pure ⟨fun d => unit (PusTm.Tm.unpack d n), 32, 48, 48, 52⟩
+def kS17 (j : Json) : R Kind := do
+  let n ← getNat j "ts_len"; pure ⟨fun d => unit (PusTm.srv17Unpack d n), 32, 48, 48, 52⟩
+def kS1 (j : Json) : R Kind := do
+  let n ← getNat j "ts_len"; let sb ← getNat j "step_bytes"; let eb ← getNat j "err_bytes"
+  pure ⟨fun d => unit (Srv1.S1Tm.unpack d n sb eb), 32, 48, 48, 52⟩
+/-- generic CRC frame: "accepted" iff residue zero over the whole string; excluded bit range from the op line -/
+def kFrame (j : Json) : R Kind := do
+  pure ⟨fun d => if crc16 d = 0 then .ok () else .error .crc, ← getNat j "ex_lo", ← getNat j "ex_hi", 0, 0⟩
 
 def isOk {α} : Py α → Bool
   | .ok _ => true
@@ -67,10 +75,10 @@ structure Sweep where
   checkFalse : Nat := 0
 
 /-- one fault: decode `flipBurst raw k B`; every `every`-th fault also evaluates `check_pus_crc` -/
-def sweepStep (kd : Kind) (dec : Bytes → Py Unit) (raw : Bytes) (every : Nat) (B : List Bool) (s : Sweep) (k : Nat) : Sweep :=
+def sweepStep (kd : Kind) (raw : Bytes) (every : Nat) (B : List Bool) (s : Sweep) (k : Nat) : Sweep :=
   if meets k B.length kd.exLo kd.exHi then s else
   let d' := flipBurst raw k B
-  let r := dec d'
+  let r := kd.dec d'
   let cleanW := !(meets k B.length kd.clsLo kd.clsHi)
   let doCheck := s.faults % every == 0
   { faults := s.faults + 1
@@ -81,31 +89,31 @@ def sweepStep (kd : Kind) (dec : Bytes → Py Unit) (raw : Bytes) (every : Nat) 
     checked := s.checked + (if doCheck then 1 else 0)
     checkFalse := s.checkFalse + (if doCheck && !(PusTc.checkPusCrc d') then 1 else 0) }
 
-def sweep (kd : Kind) (dec : Bytes → Py Unit) (raw : Bytes) (patterns : List (List Bool)) (every : Nat) : Sweep :=
+def sweep (kd : Kind) (raw : Bytes) (patterns : List (List Bool)) (every : Nat) : Sweep :=
   patterns.foldl (fun s B =>
     if B.length = 0 ∨ 8 * raw.length < B.length then s else
-    (List.range (8 * raw.length - B.length + 1)).foldl (sweepStep kd dec raw (max every 1) B) s) {}
+    (List.range (8 * raw.length - B.length + 1)).foldl (sweepStep kd raw (max every 1) B) s) {}
 
-def kindOps (tag : String) (kd : Kind) : List (String × Handler) := [
+def kindOps (tag : String) (mk : Json → R Kind) : List (String × Handler) := [
   (s!"c04_{tag}_check", fun j => do
       let raw ← getHex j "raw"
-      let dec ← kd.dec j
-      pure (obj [("ok", obj [("accepted", jb (isOk (dec raw))), ("crc_check", jb (PusTc.checkPusCrc raw))])])),
+      let kd ← mk j
+      pure (obj [("ok", obj [("accepted", jb (isOk (kd.dec raw))), ("crc_check", jb (PusTc.checkPusCrc raw))])])),
   (s!"c04_{tag}_corrupt", fun j => do
       let raw ← getHex j "raw"
       let k ← getNat j "bit_offset"
       let B ← getBits j "pattern"
-      let dec ← kd.dec j
+      let kd ← mk j
       if 8 * raw.length < k + B.length then throw "window outside the packet"
       let d' := flipBurst raw k B
-      pure (res (fun (_ : Unit) => obj [("accepted", jb true)]) (dec d'))),
+      pure (res (fun (_ : Unit) => obj [("accepted", jb true)]) (kd.dec d'))),
   (s!"c04_{tag}_sweep", fun j => do
       let raw ← getHex j "raw"
       let pats ← getBitsList j "patterns"
       let every ← getNat j "crc_every"
-      let dec ← kd.dec j
-      let s := sweep kd dec raw pats every
-      pure (obj [("ok", obj [("base_ok", jb (isOk (dec raw))), ("base_crc_check", jb (PusTc.checkPusCrc raw)),
+      let kd ← mk j
+      let s := sweep kd raw pats every
+      pure (obj [("ok", obj [("base_ok", jb (isOk (kd.dec raw))), ("base_crc_check", jb (PusTc.checkPusCrc raw)),
         ("faults", jn s.faults), ("rejected", jn s.rejected), ("undocumented", jn s.undocumented),
         ("clean_windows", jn s.clean), ("crc_class_on_clean", jn s.crcClass),
         ("crc_checked", jn s.checked), ("crc_check_false", jn s.checkFalse)])]))
@@ -118,7 +126,35 @@ def ops : List (String × Handler) := [
       pure (obj [("ok", obj [("crc", jn c), ("valid", jb (PusTc.checkPusCrc d))])])),
   ("c04_flip", fun j => do
       let raw ← getHex j "raw"
-      pure (obj [("ok", obj [("raw", jh (flipBurst raw (← getNat j "bit_offset") (← getBits j "pattern")))])]))
-] ++ kindOps "tc" kTc ++ kindOps "tm" kTm ++ kindOps "s17" kS17 ++ kindOps "s1" kS1
+      pure (obj [("ok", obj [("raw", jh (flipBurst raw (← getNat j "bit_offset") (← getBits j "pattern")))])])),
+  -- construct, pack once (the cached CRC becomes stale), apply the public setters, pack again
+  ("c04_tc_mutated_pack", fun j => do
+      let t0 := PusTc.Tc.new (← getNat j "service") (← getNat j "subservice") (← getInt j "apid") (← getHex j "data")
+        (← getInt j "count") (← getNat j "source_id") (← getNat j "ack")
+      let sa ← getIntOpt j "set_apid"; let sc ← getIntOpt j "set_count"; let ss ← getIntOpt j "set_source_id"
+      let sd ← getHexOpt j "set_data"
+      pure (res (fun (r : Bytes × Bytes) => obj [("first", jh r.1), ("raw", jh r.2), ("crc_check", jb (PusTc.checkPusCrc r.2))])
+        (do let t ← t0
+            let first ← t.pack
+            let t := match sa with | some a => { t with sph := { t.sph with apid := a.toNat } } | none => t
+            let t := match sc with | some c => { t with sph := { t.sph with count := c.toNat } } | none => t
+            let t := match ss with | some v => { t with sec := { t.sec with sourceId := v.toNat } } | none => t
+            let t := match sd with | some d => t.setAppData d | none => t
+            let raw ← t.pack
+            pure (first, raw)))),
+  ("c04_tm_mutated_pack", fun j => do
+      let t0 := PusTm.Tm.new (← getInt j "service") (← getInt j "subservice") (← getHex j "timestamp") (← getHex j "data")
+        (← getInt j "apid") (← getInt j "count") (← getInt j "msg_counter") (← getNat j "time_ref")
+        (← getNat j "dest_id") (← getNat j "version")
+      let sa ← getIntOpt j "set_apid"; let sf ← getIntOpt j "set_seq_flags"; let sd ← getHexOpt j "set_data"
+      pure (res (fun (r : Bytes × Bytes) => obj [("first", jh r.1), ("raw", jh r.2), ("crc_check", jb (PusTc.checkPusCrc r.2))])
+        (do let t ← t0
+            let first ← t.pack
+            let t := match sa with | some a => { t with sph := { t.sph with apid := a.toNat } } | none => t
+            let t := match sf with | some f => { t with sph := { t.sph with flags := f.toNat } } | none => t
+            let t := match sd with | some d => t.setTmData d | none => t
+            let raw ← t.pack
+            pure (first, raw))))
+] ++ kindOps "tc" kTc ++ kindOps "tm" kTm ++ kindOps "s17" kS17 ++ kindOps "s1" kS1 ++ kindOps "frame" kFrame
 
 end SpVerif.Ops.Crc
